@@ -16,6 +16,8 @@ def label(op):
     o = op.get("op")
     if o == "cont":
         return "c"
+    if o == "turn":
+        return "t"
     if o == "cont_async":
         return "c"
     if o == "choose":
@@ -51,6 +53,55 @@ def canon_cb(cbs, keep_lines=False):
             run = []
             out.append(c)
     out += sorted(run, key=lambda x: json.dumps(x, sort_keys=True))
+    return out
+
+
+def collapse_turns(recs):
+    """records of one `turn` macro become one record: the lines of the turn (non-empty, with their tags), the
+    observation at the end of the turn, all callbacks — the granularity at which a host that loops
+    `while can_continue { cont }` sees the story"""
+    out = []
+    cur = None
+    for r in recs:
+        if r.get("n", 0) <= 0:
+            out.append(r)
+            continue
+        if (r.get("opfull") or {}).get("macro") == "turn":
+            line = [(r.get("obs") or {}).get("text"), (r.get("obs") or {}).get("tags")]
+            if cur is not None and cur["opi"] == r.get("opi") and cur["on"] == r.get("on", 0):
+                m = cur["rec"]
+            else:
+                m = dict(r)
+                m["op"] = "turn"
+                m["opfull"] = {k: v for k, v in r["opfull"].items() if k not in ("macro",)}
+                m["opfull"]["op"] = "turn"
+                m["cb"] = []
+                m["lines"] = []
+                m.pop("val", None)
+                cur = dict(opi=r.get("opi"), on=r.get("on", 0), rec=m)
+                out.append(m)
+            if isinstance(line[0], str) and line[0].strip():
+                m["lines"].append(line)
+            m["cb"] = m["cb"] + (r.get("cb") or [])
+            if r.get("res") != "ok":
+                m["res"] = r.get("res")
+                for k in ("errkind", "errmsg", "panic"):
+                    if k in r:
+                        m[k] = r[k]
+            if r.get("obs"):
+                o = dict(r["obs"])
+                o["text"] = m["lines"]
+                o["tags"] = []
+                m["obs"] = o
+            m["live"] = r.get("live")
+        else:
+            cur = None
+            if r.get("obs"):
+                # between turns the "current text" is whatever the last continue left: an artefact of how
+                # the turn was segmented into continues, not part of the turn-level observation
+                r = dict(r)
+                r["obs"] = dict(r["obs"], text=None, tags=None)
+            out.append(r)
     return out
 
 
@@ -161,18 +212,27 @@ class Batch:
 
     # ---------------------------------------------------------------- probed runs
     def start_case(self, key, info, cmp=None, cmpall=None, pf=False, cmpcb=True, cmpval=True, cmpsave=True,
-                   cmpres=True, chk11=False, chk12="", chk13=False):
+                   cmpres=True, chk11=False, chk12="", chk13=False, probed=False):
         self.ncases += 1
         self.cases[self.ncases] = dict(key=key, info=info)
         self.rich = bool(chk11 or chk12 or chk13)
-        self.events.append(dict(cls="case", case=self.ncases, cmp=cmp or ALL_COMPS, cmpall=cmpall or ALL_COMPS, pf=pf,
+        self.events.append(dict(cls="case", case=self.ncases, cmp=ALL_COMPS if cmp is None else cmp, cmpall=ALL_COMPS if cmpall is None else cmpall, pf=pf,
                                 cmpcb=cmpcb, cmpval=cmpval, cmpsave=cmpsave, cmpres=cmpres, chk11=chk11, chk12=chk12,
-                                chk13=chk13))
+                                chk13=chk13, probed=probed))
         self.evmeta.append((self.ncases, None))
         return self.ncases
 
     def add_probe(self, caseno, recs, cfg, root, froot=None):
         prev_obs = {}
+        # marker lines that were delivered as lines of their own (not glued to a neighbour): only for those
+        # does "the line preceding the call" exist as a separate line
+        standalone = set()
+        for r in recs:
+            for ln in ([x[0] for x in r.get("lines", [])] if "lines" in r else [r.get("val")]):
+                if isinstance(ln, str):
+                    mm = re.match(r"^m(\d+)q \w+\n$", ln)
+                    if mm:
+                        standalone.add(int(mm.group(1)))
         for r in recs:
             if r.get("n", 0) <= 0:
                 continue
@@ -192,12 +252,14 @@ class Batch:
             if self.rich:
                 for c in r.get("cb") or []:
                     if c.get("k") == "obs":
-                        e["cbs"].append(dict(k="obs", o=c["o"], var=c["var"], val=self.intern(c["val"])))
+                        e["cbs"].append(dict(k="obs", o=c["o"], var=c["var"], val=self.intern(c["val"]), seen=True))
                     elif c.get("k") == "ext":
-                        e["cbs"].append(dict(k="ext", o=0, var=c["f"], val=0))
+                        a0 = (c.get("args") or [{}])[0].get("v")
+                        seen = bool(c.get("seen", True)) or a0 not in standalone
+                        e["cbs"].append(dict(k="ext", o=0, var=c["f"], val=0, seen=seen))
                         e["ext"][c["f"]] = e["ext"].get(c["f"], 0) + 1
                     else:
-                        e["cbs"].append(dict(k="msg", o=0, var="", val=0))
+                        e["cbs"].append(dict(k="msg", o=0, var="", val=0, seen=True))
                         e["msgs"].append(self.intern([c.get("type"), c.get("text")]))
                 e["vm"] = {k: self.intern(v) for k, v in ((r.get("obs") or {}).get("vars") or {}).items()}
             e["ja"] = e["jb"] = 0
